@@ -47,6 +47,8 @@ pub fn all_harnesses() -> Vec<Harness> {
     v.extend_from_slice(h_float_tok::HARNESSES);
     v.extend_from_slice(h_special::HARNESSES);
     v.extend_from_slice(h_bound::HARNESSES);
+    #[cfg(not(feature = "compact"))]
+    v.extend_from_slice(h_bound::emit::HARNESSES);
     v.extend_from_slice(h_special_write::HARNESSES);
     #[cfg(feature = "compact")]
     v.extend_from_slice(h_bellerophon::dec::HARNESSES);
